@@ -32,14 +32,18 @@ def main():
             continue
         try:
             hits = {}
-            for pid in PIDS:
-                c = run(f'/venv/bin/python -W ignore -m scverif check {pid}', cwd=HERE)
-                lines = [l for l in c.stdout.splitlines() if l.startswith('  rule=')]
-                errs = [l for l in c.stdout.splitlines() if l.startswith('ANALYSIS-ERROR')]
-                if c.returncode == 1:
-                    hits[pid] = [l.strip()[:230] for l in lines]
-                elif c.returncode == 2:
-                    hits[pid] = ['EXIT2 ' + (errs[0][:200] if errs else '')]
+            # one process for the twenty checks (each prints VIOLATION / rule= lines and an ANALYSIS-ERROR line when it cannot bind)
+            c = run('/venv/bin/python -W ignore -m scverif check all', cwd=HERE)
+            cur = None
+            for l in c.stdout.splitlines():
+                if l.startswith('VIOLATION property='):
+                    cur = l.split('property=')[1].split()[0]
+                    hits.setdefault(cur, [])
+                elif l.startswith('  rule=') and cur is not None:
+                    hits[cur].append(l.strip()[:230])
+                elif l.startswith('ANALYSIS-ERROR property='):
+                    pid = l.split('property=')[1].split()[0]
+                    hits.setdefault(pid, []).append('EXIT2 ' + l[:200])
             out[os.path.basename(d)] = hits
             mp = os.path.join(d, 'meta.json')
             if os.path.exists(mp):
@@ -55,8 +59,7 @@ def main():
             run('git -C /repo checkout -- .')
             run('git -C /repo clean -fdq sc3')
     # restore evidence of the unchanged tree
-    for pid in PIDS:
-        run(f'/venv/bin/python -W ignore -m scverif check {pid}', cwd=HERE)
+    run('/venv/bin/python -W ignore -m scverif check all', cwd=HERE)
     return 0
 
 
